@@ -114,7 +114,10 @@ def record(kind, prm, ws, xs, vs, cuts, twice, seed):
 
 def finding_key(tr, rej):
     ev = (rej["offending_event"] or {}).get("ev", "end")
-    return "%s|%s|%s" % (tr["id"].split("/")[0], ev, ",".join(rej["failed_clauses"]) or "unmatched")
+    head = tr["id"].split("/")[0]
+    if head.startswith("CognitiveDualQueryStrategy(filter)"):
+        head = "CognitiveDualQueryStrategy(force_full_budget=False)"     # (one defect, whatever the manager kind)
+    return "%s|%s|%s" % (head, ev, ",".join(rej["failed_clauses"]) or "unmatched")
 
 
 # --------------------------------------------------------------------------
@@ -155,12 +158,12 @@ def project_cog(obj, kind, prm, ref):
     return {"win": win, "mgr": mgr}
 
 
-def record_cognitive(kind, prm, cws, thr, xs, vs, cuts, twice, seed):
+def record_cognitive(kind, prm, cws, thr, xs, vs, cuts, twice, seed, full=True):
     from skactiveml.stream import CognitiveDualQueryStrategy
 
     b = float(Fraction(*prm["B"]))
     ref = bc.RefStream(seed, 2 * len(xs) + 4, b, prm["v"]) if kind in bc.RNG_OBJ_KINDS else None
-    obj = CognitiveDualQueryStrategy(force_full_budget=True, dist_func=_dist_first, density_threshold=thr,
+    obj = CognitiveDualQueryStrategy(force_full_budget=bool(full), dist_func=_dist_first, density_threshold=thr,
                                      cognition_window_size=cws, budget_manager=bc.make(kind, prm, seed),
                                      random_state=seed + 1)
     clf = _stub_max()
@@ -200,16 +203,17 @@ def record_cognitive(kind, prm, cws, thr, xs, vs, cuts, twice, seed):
                 obj.update(cand.copy(), np.asarray(res, dtype=int))
             ev["st"] = project_cog(obj, kind, prm, ref)
         except Exception as ex:
-            ev = {"ev": "UpdateRaised", "exc": "%s: %s" % (type(ex).__name__, str(ex)[:160])}
+            ev = {"ev": "UpdateRaised", "exc": "%s: %s" % (type(ex).__name__, str(ex)[:160]),
+                  "xs": [int(x) for x in cx], "us": us, "q": [int(i) + 1 for i in np.asarray(res)]}
         events.append(ev)
         if ev["ev"] != "Update":
             break
-    return {"id": "CognitiveDualQueryStrategy(full):%s/cws%d/thr%d/W%d/B%d_%d/x%s/v%s/cuts%s/%s/seed%d" % (
-        kind, cws, thr, prm["W"], prm["B"][0], prm["B"][1], list(xs), list(vs), sorted(cuts),
-        "twice" if twice else "once", seed),
-        "P": P, "cws": cws, "thr": thr, "rnd": ref.rnd if (ref is not None and kind in bc.RND_KINDS) else [],
+    return {"id": "CognitiveDualQueryStrategy(%s):%s/cws%d/thr%d/W%d/B%d_%d/x%s/v%s/cuts%s/%s/seed%d" % (
+        "full" if full else "filter", kind, cws, thr, prm["W"], prm["B"][0], prm["B"][1], list(xs), list(vs),
+        sorted(cuts), "twice" if twice else "once", seed),
+        "P": P, "cws": cws, "thr": thr, "full": bool(full), "rnd": ref.rnd if (ref is not None and kind in bc.RND_KINDS) else [],
         "events": events,
-        "concrete": {"strategy": "CognitiveDualQueryStrategy(force_full_budget=True)", "manager_kind": kind,
+        "concrete": {"strategy": "CognitiveDualQueryStrategy(force_full_budget=%s)" % bool(full), "manager_kind": kind,
                      "params": prm, "cognition_window_size": cws, "density_threshold": thr, "features": list(xs),
                      "proba_sixteenths": list(vs), "cuts": sorted(cuts), "twice": bool(twice), "seed": seed,
                      "how": "harness.drivers.density_common.record_cognitive(...)"}}
